@@ -26,6 +26,14 @@ CORE = [
     ["NT 1", "CLIENT 0 N1 R", "CLIENT 1 X1 R"],
     ["NT 2", "CLIENT 0 N1 R", "CLIENT 1 F2:2 X2 R"],
     ["NT 2", "CLIENT 0 F1:4 X1 R", "CLIENT 1 N2 X2 R"],
+    # the last references dropped by several threads at once
+    ["NT 1", "CLIENT 0 R", "CLIENT 1 R"],
+    ["NT 1", "CLIENT 0 N1 R", "CLIENT 1 R"],
+    ["NT 1", "CLIENT 0 R", "CLIENT 1 R", "CLIENT 2 R"],
+    # task functions that use the scheduler from inside an invocation (RUN or CANCELED while it is alive)
+    ["NT 2", "TASKFN 1 N2", "CLIENT 0 N1 X1 R"],
+    ["NT 2", "TASKFN 1 N2", "CLIENT 0 F1:5 X1 P P P R"],
+    ["NT 3", "TASKFN 1 X2", "TASKFN 2 N3", "CLIENT 0 F2:3 N1 P P R"],
 ]
 
 
@@ -43,6 +51,12 @@ def random_scenario(rng):
             kc = k if rng.random() < 0.6 else rng.randrange(nclients)
             ops[kc].append("X%d" % t)
     lines = ["NT %d" % ntasks]
+    spare = ntasks
+    for t in range(1, ntasks + 1):
+        if rng.random() < 0.25 and spare < 8:
+            spare += 1                       # a follow-up task only ever scheduled from inside task t
+            lines.append("TASKFN %d %s" % (t, rng.choice(["N%d" % spare, "F%d:%d" % (spare, rng.choice([0, 2, 40000])), "X%d" % rng.randint(1, ntasks)])))
+    lines[0] = "NT %d" % spare
     for k in range(nclients):
         o = ops[k]
         if rng.random() < 0.3:
